@@ -48,3 +48,34 @@ Proof.
   unfold credited in H. destruct (r_sigs r); [reflexivity|].
   rewrite !orb_true_r in H. discriminate H.
 Qed.
+
+(* the engine state is the reference table of the starter-mode nibble and the speed word *)
+Lemma eec1_ref_state d : bytes8 d -> e_state (eec1_engine d) = ref_estate d.
+Proof.
+  intros H. explode_bytes d H.
+  unfold ref_estate, le16, eec1_engine, starter_of, rpm_dec, byte_at, u16le. cbn [nth e_state].
+  assert (R : ((b3 =? 255) && (b4 =? 255)) = (b3 + 256 * b4 =? 65535)).
+  { destruct ((b3 =? 255) && (b4 =? 255)) eqn:E; destruct (b3 + 256 * b4 =? 65535) eqn:E2; try reflexivity; lia. }
+  rewrite R.
+  destruct (b6 mod 16 =? 15) eqn:E15.
+  - assert (E12 : (b6 mod 16 =? 1) || (b6 mod 16 =? 2) = false) by lia. rewrite E12.
+    assert (E3 : b6 mod 16 =? 3 = false) by lia. rewrite E3. reflexivity.
+  - destruct ((b6 mod 16 =? 1) || (b6 mod 16 =? 2)) eqn:E12; [reflexivity|].
+    destruct (b6 mod 16 =? 3) eqn:E3; [reflexivity|].
+    destruct ((b6 mod 16 =? 0) || (b6 mod 16 =? 4) || (b6 mod 16 =? 5) || (b6 mod 16 =? 6)
+              || (b6 mod 16 =? 7) || (b6 mod 16 =? 8) || (b6 mod 16 =? 12)); reflexivity.
+Qed.
+
+Theorem c12_state : forall c, ucase_wf c = true -> c12_state_ok c (unit_model c) = true.
+Proof.
+  intros [k u f] Hwf. pose proof (wf_bytes8 _ Hwf) as B. destruct (wf_parts _ Hwf) as (_ & _ & _ & Hl).
+  cbn [uc_kind uc_u uc_frame] in *.
+  unfold unit_model. cbn [uc_frame uc_kind uc_u]. rewrite Hl. cbn [Z.of_nat Pos.of_succ_nat Pos.succ Z.eqb Pos.eqb].
+  unfold c12_state_ok. cbn [uc_kind uc_frame uc_u].
+  destruct k; try reflexivity;
+    (destruct ((id_sa (f_id f) =? u_da u) && (id_pgn (f_id f) =? 61444)) eqn:G; [|reflexivity]; cbn [implb];
+     apply andb_prop in G as [G1 G2]; cbn [unit_recv]; unfold ems_recv;
+     assert (P : id_pgn (f_id f) = 61444) by lia; rewrite P, G1;
+     unfold PGN_TSC1, PGN_EEC1; cbn [Z.eqb Pos.eqb r_sigs];
+     rewrite (eec1_ref_state _ B); destruct (ref_estate (f_data f)); reflexivity).
+Qed.
